@@ -55,6 +55,29 @@ void harness(void) {
     if (unsafe == 2) __CPROVER_assert(cnt == nnb && !sawOrigin, "ring 1 = exactly the neighbours");
     else __CPROVER_assert(cnt == nnb + 1 && sawOrigin, "disk 1 = origin and all neighbours");
     if (unsafe == 1) __CPROVER_assert(out[1] == h, "unsafe disk in ring order: origin first");
+#elif defined(DISKS2)
+    // gridDisksUnsafe on two origins, k=1: either an error, or each 7-slot segment is exactly that origin's disk, origin first
+    H3Index hs[2]; hs[0] = in_h = mkcell(RES, "in_h"); hs[1] = in_b = mkcell(RES, "in_b");
+    VP_EXCLUDE();
+    H3Index out[16];
+    for (int i = 0; i < 16; i++) out[i] = 0;
+    out[0] = out[15] = UINT64_C(0x5a5a5a5a5a5a5a5a);
+    H3Error e = H3_EXPORT(gridDisksUnsafe)(hs, 2, 1, out + 1);
+    __CPROVER_assert(out[0] == UINT64_C(0x5a5a5a5a5a5a5a5a) && out[15] == UINT64_C(0x5a5a5a5a5a5a5a5a), "within 2 * maxGridDiskSize(1) slots");
+    if (e != E_SUCCESS) { VP_WITNESS("disks error"); return; }
+    VP_WITNESS("disks ok");
+    for (int s = 0; s < 2; s++) {
+        H3Index nb[6]; int nnb = nb_of(hs[s], nb);
+        __CPROVER_assert(out[1 + 7 * s] == hs[s], "segment starts with its origin");
+        int cnt = 0;
+        for (int i = 1; i < 7; i++) {
+            H3Index c = out[1 + 7 * s + i];
+            int found = 0;
+            for (int j = 0; j < 6; j++) if (j < nnb && nb[j] == c) found = 1;
+            __CPROVER_assert(found, "a successful gridDisksUnsafe returns exactly each origin's disk");
+            for (int j = 1; j < i; j++) __CPROVER_assert(out[1 + 7 * s + j] != c, "no duplicates in a segment");
+        }
+    }
 #elif defined(ARENBR)
     // areNeighborCells(a,b) for an arbitrary valid same-resolution b: true exactly for the neighbour pairs
     H3Index a = in_h = mkcell(RES, "in_h"), b = in_b = mkcell(RES, "in_b");
